@@ -44,9 +44,11 @@ def baseline(wt):
 
 def main():
     seed_id, prop, wt = sys.argv[1:4]
-    demo = [f for f in os.listdir(wt) if f.startswith('demo_') and f.endswith('.py')]
-    if not demo or not os.path.exists(os.path.join(wt, 'patch.diff')):
-        print('missing demo or patch.diff in', wt)
+    patch = sys.argv[4] if len(sys.argv) > 4 else 'patch.diff'
+    prefix = sys.argv[5] if len(sys.argv) > 5 else 'demo_'
+    demo = [f for f in os.listdir(wt) if f.startswith(prefix) and f.endswith('.py')]
+    if not demo or not os.path.exists(os.path.join(wt, patch)):
+        print('missing demo or', patch, 'in', wt)
         return 2
     demo = demo[0]
     meta = dict(seed=seed_id, property=prop, worktree=wt, ran=[])
@@ -54,7 +56,7 @@ def main():
     sh('git checkout -- bardolph web', cwd=wt)
     rc0, out0 = sh('%s %s' % (PY, demo), cwd=wt, timeout=600)
     meta['demo_without_change'] = dict(exit=rc0, tail=out0[-600:])
-    rca, outa = sh('git apply patch.diff', cwd=wt)
+    rca, outa = sh('git apply %s' % patch, cwd=wt)
     if rca != 0:
         print('patch does not apply:', outa)
         return 2
@@ -83,15 +85,15 @@ def main():
     meta['caught_by_own_property'] = prop in results and results[prop]['exit'] == 1
     meta['caught_by_any'] = any(r['exit'] == 1 for r in results.values())
     meta['ran'] = ['git checkout -- bardolph web; %s %s' % (PY, demo),
-                   'git apply patch.diff; %s %s' % (PY, demo),
+                   'git apply %s; %s %s' % (patch, PY, demo),
                    'pytest (pinned command) compared with BASELINE.json',
                    './check <Cnn> --tier quick --repo %s --no-evidence for every '
                    'claimed property' % wt]
     dst = os.path.join(VERIF, 'seeded', seed_id)
     os.makedirs(dst, exist_ok=True)
-    for f in ('patch.diff', demo, 'REPORT.md'):
+    for f, name in ((patch, 'patch.diff'), (demo, demo), ('REPORT.md', 'REPORT.md')):
         if os.path.exists(os.path.join(wt, f)):
-            shutil.copy2(os.path.join(wt, f), os.path.join(dst, f))
+            shutil.copy2(os.path.join(wt, f), os.path.join(dst, name))
     with open(os.path.join(dst, 'meta.json'), 'w') as fh:
         json.dump(meta, fh, indent=1)
         fh.write('\n')
